@@ -40,7 +40,7 @@ pub fn reserved_for(tgt: Tgt) -> Vec<&'static str> {
 
 /// the reserved words RSSL's own front end accepts as the name of a local variable (probed once):
 /// the others are keywords of RSSL itself and can never reach an exporter
-fn usable_words(tgt: Tgt) -> Vec<&'static str> {
+fn usable_words(tgt: Tgt, builtins: bool) -> Vec<&'static str> {
     static CACHE: std::sync::OnceLock<Vec<&'static str>> = std::sync::OnceLock::new();
     let accepted = CACHE.get_or_init(|| {
         let mut all: Vec<&'static str> = CPP_KEYWORDS.iter().chain(MSL_EXTRA.iter()).chain(HLSL_RESERVED.iter()).copied().collect();
@@ -49,7 +49,12 @@ fn usable_words(tgt: Tgt) -> Vec<&'static str> {
         all.into_iter().filter(|w| matches!(type_check_text(&format!("int f() {{ int {} = 1; return {}; }}\n", w, w)), Ok(Ok(_)))).collect()
     });
     let mine = reserved_for(tgt);
-    let v: Vec<&'static str> = accepted.iter().copied().filter(|w| mine.contains(w)).collect();
+    let mut v: Vec<&'static str> = accepted.iter().copied().filter(|w| mine.contains(w)).collect();
+    // names of builtin functions: the exporters rename them as well (not required by the property, but it exercises the
+    // same renaming paths, and a user entity of that name must still be referred to consistently)
+    if builtins && !matches!(tgt, Tgt::Msl | Tgt::MetalBytecode) {
+        v.extend(["min", "max", "dot", "length", "step", "abs", "lerp", "clamp", "select", "all", "any", "distance", "normalize"]);
+    }
     if v.is_empty() { mine } else { v }
 }
 
@@ -397,7 +402,13 @@ fn record_for(p: &Prog, renamed: &Prog, map: Vec<(String, String)>, verbatim: Ve
     })
 }
 
-fn make_case(choices: &[u32], class: u8, tgt_i: usize, seed: u64) -> Value {
+pub fn make_case(choices: &[u32], class: u8, tgt_i: usize, seed: u64) -> Value {
+    make_case_with(choices, class, tgt_i, seed, false)
+}
+
+/// `builtins`: also rename onto names of builtin functions (only meaningful where the oracle does not depend on the
+/// program still calling the builtin of that name: C04)
+pub fn make_case_with(choices: &[u32], class: u8, tgt_i: usize, seed: u64, builtins: bool) -> Value {
     let tgt = [Tgt::Dx, Tgt::Vk, Tgt::Msl][tgt_i % 3];
     let prof = if tgt == Tgt::Msl { progen::Profile::exec_msl() } else { progen::Profile::exec_hlsl() };
     let (p, _, _) = progen::generate(choices, prof);
@@ -409,7 +420,7 @@ fn make_case(choices: &[u32], class: u8, tgt_i: usize, seed: u64) -> Value {
     let mut shared_ok = Vec::new();
     let mut used: HashSet<String> = p.names.iter().cloned().collect();
     let class_name;
-    match class % 4 {
+    match class % 5 {
         0 => {
             // every identifier gets a fresh plain name
             class_name = "fresh";
@@ -429,7 +440,7 @@ fn make_case(choices: &[u32], class: u8, tgt_i: usize, seed: u64) -> Value {
         1 => {
             // 1-3 entities are renamed onto words the target reserves
             class_name = "reserved";
-            let words = usable_words(tgt);
+            let words = usable_words(tgt, builtins);
             let k = 1 + (mix.next() % 3) as usize;
             let mut taken = HashSet::new();
             for _ in 0..k {
@@ -447,6 +458,29 @@ fn make_case(choices: &[u32], class: u8, tgt_i: usize, seed: u64) -> Value {
                 }
                 q.names[n] = w.to_string();
                 map.push((p.names[n].clone(), w.to_string()));
+            }
+        }
+        4 => {
+            // an entity onto a reserved word and other entities onto the names the exporter will generate for it
+            class_name = "reserved_suffix";
+            let words = usable_words(tgt, builtins);
+            if !ents.is_empty() && !words.is_empty() {
+                let (n, kind) = ents[(mix.next() % ents.len() as u64) as usize];
+                let w = words[(mix.next() % words.len() as u64) as usize];
+                if !(TYPE_WORDS.contains(&w) && matches!(kind, Kind::Func | Kind::Struct | Kind::Enum | Kind::TemplateParam)) {
+                    q.names[n] = w.to_string();
+                    map.push((p.names[n].clone(), w.to_string()));
+                    for i in 0..1 + (mix.next() % 2) as usize {
+                        let (m, _) = ents[(mix.next() % ents.len() as u64) as usize];
+                        let cand = format!("{}_{}", w, i);
+                        if m == n || used.contains(&cand) || map.iter().any(|(o, _): &(String, String)| o == &p.names[m]) {
+                            continue;
+                        }
+                        used.insert(cand.clone());
+                        q.names[m] = cand.clone();
+                        map.push((p.names[m].clone(), cand));
+                    }
+                }
             }
         }
         2 => {
@@ -530,7 +564,7 @@ fn table_program(kind: usize, word: &str) -> (String, String, Vec<(String, Strin
 
 pub fn run(ctx: &mut Ctx) {
     use proptest::prelude::*;
-    ctx.rule = "A program and a consistently renamed copy are compiled for DirectX HLSL, Vulkan HLSL or Metal. Renamings: (fresh) every identifier to a fresh plain name; (reserved) 1-3 entities onto words the target reserves, drawn from independent lists (86 C++14 keywords, 9 Metal address-space / stage keywords and the namespace name, 87 HLSL reserved words and keywords) - also exhaustively: every word x 11 entity kinds (struct, field, enum, enum value, static, static const, function, overloaded function, parameter, local, template parameter) in a fixed program; (suffix) 1-3 entities onto name_N forms that collide with the names generated for overloads and template instances; (shared) one name shared by locals / parameters of different functions or by fields of different structs. Checked: identical token streams up to identifiers with a consistent identifier map; fixed identifiers unchanged; plain names kept verbatim; no emitted user name is reserved in the target; no two entities share an emitted name unless the sharing is legal; the renamed program passes the C01/C02 differential executor. Renamings RSSL's own front end rejects are skipped and counted. Non-trivial = both programs compiled and at least one user identifier was compared; distinct = hash of (renamed source, target).".into();
+    ctx.rule = "A program and a consistently renamed copy are compiled for DirectX HLSL, Vulkan HLSL or Metal. Renamings: (fresh) every identifier to a fresh plain name; (reserved) 1-3 entities onto words the target reserves, drawn from independent lists (86 C++14 keywords, 9 Metal address-space / stage keywords and the namespace name, 87 HLSL reserved words and keywords) - also exhaustively: every word x 11 entity kinds (struct, field, enum, enum value, static, static const, function, overloaded function, parameter, local, template parameter) in a fixed program; (suffix) 1-3 entities onto name_N forms that collide with the names generated for overloads and template instances; (reserved_suffix) one entity onto a reserved word and 1-2 others onto word_0 / word_1, the names the exporter generates for it; (shared) one name shared by locals / parameters of different functions or by fields of different structs. Checked: identical token streams up to identifiers with a consistent identifier map; fixed identifiers unchanged; plain names kept verbatim; no emitted user name is reserved in the target; no two entities share an emitted name unless the sharing is legal; the renamed program passes the C01/C02 differential executor. Renamings RSSL's own front end rejects are skipped and counted. Non-trivial = both programs compiled and at least one user identifier was compared; distinct = hash of (renamed source, target).".into();
     ctx.assumptions.push("reserved-word lists are limited to words every implementation of the target rejects as an identifier; names that are merely builtin functions are not required to be renamed".into());
     ctx.assumptions.push("namespaces are not generated: names shared between namespaces are not covered".into());
     if !ctx.replay_tier(&check_record) {
@@ -560,11 +594,11 @@ pub fn run(ctx: &mut Ctx) {
     ctx.run_prop(
         "renamed_generated_programs",
         ctx.tier.pick(8_000, 200_000),
-        || (progen::choices_strategy(500), 0u8..4, 0usize..3, any::<u64>()),
+        || (progen::choices_strategy(500), 0u8..5, 0usize..3, any::<u64>()),
         |(ch, class, t, seed): &(Vec<u32>, u8, usize, u64)| make_case(ch, *class, *t, *seed),
         check_record,
     );
-    for l in ["class_fresh", "class_reserved", "class_suffix", "class_shared", "verbatim_checked", "executed", "legal_sharing"] {
+    for l in ["class_fresh", "class_reserved", "class_suffix", "class_shared", "class_reserved_suffix", "verbatim_checked", "executed", "legal_sharing"] {
         ctx.require_label(l, 50);
     }
 }
